@@ -162,30 +162,32 @@ func c10Queries(c c10Case, env *c10Env) *vlib.Failure {
 	}
 	fullWalk := func(when string) *vlib.Failure {
 		var got []c10Region
-		var kept []*MemoryMapEntry
+		var changed *vlib.Failure
 		nestAt := -1
 		if len(regs) >= 2 && len(regs) <= 12 && c.Pad%4 == 1 {
-			nestAt = int(c.Pad/4) % len(regs) // this visitor call scans the map itself before it looks at its entry
+			nestAt = int(c.Pad/4) % len(regs) // this visitor call scans the map itself while it holds its entry
 		}
 		if f := env.call("VisitMemRegions"+when, func() {
 			VisitMemRegions(func(e *MemoryMapEntry) bool {
+				seen := c10Region{A: e.PhysAddress, L: e.Length, T: uint32(e.Type)}
 				if len(got) == nestAt {
+					// whatever the visitor calls while it runs - a scan of its own included - the
+					// entry it was handed stays what it was until it returns (what becomes of the
+					// entry after the visitor has returned is the decoder's business)
 					VisitMemRegions(func(*MemoryMapEntry) bool { return true })
+					if now := (c10Region{A: e.PhysAddress, L: e.Length, T: uint32(e.Type)}); now != seen && changed == nil {
+						changed = vlib.Failf("VisitMemRegions%s: the entry handed to the visitor for region %d read (addr %#x, len %#x, type %d) when the visitor was called and reads (addr %#x, len %#x, type %d) after the visitor scanned the memory map itself, before it returned: entries share storage",
+							when, len(got), seen.A, seen.L, seen.T, now.A, now.L, now.T)
+					}
 				}
-				got = append(got, c10Region{A: e.PhysAddress, L: e.Length, T: uint32(e.Type)})
-				kept = append(kept, e)
+				got = append(got, seen)
 				return len(got) <= len(regs)+2
 			})
 		}); f != nil {
 			return f
 		}
-		// what the visitor was shown stays what it was: a consumer may look at an entry again after
-		// it has seen the next one (or after a scan of its own)
-		for i, e := range kept {
-			if i < len(got) && (got[i] != c10Region{A: e.PhysAddress, L: e.Length, T: uint32(e.Type)}) {
-				return vlib.Failf("VisitMemRegions%s: the entry handed to the visitor for region %d read (addr %#x, len %#x, type %d) during the call and reads (addr %#x, len %#x, type %d) after the walk: entries share storage",
-					when, i, got[i].A, got[i].L, got[i].T, e.PhysAddress, e.Length, uint32(e.Type))
-			}
+		if changed != nil {
+			return changed
 		}
 		for i := 0; i < len(got) && i < len(regs); i++ {
 			w := c10Region{A: regs[i].A, L: regs[i].L, T: c10WantType(regs[i].T)}
